@@ -189,6 +189,9 @@ impl<'a> Interp<'a> {
         if src.get("zero").is_some() {
             return Some(vec![0u8; len]);
         }
+        if let Some(b) = src.get("fill") {
+            return Some(vec![b.as_u64().unwrap() as u8; len]);
+        }
         if let Some(o) = src.get("out") {
             let l = self.objs.get(o.as_str().unwrap())?;
             if from + len > l.out.len() {
